@@ -38,7 +38,8 @@
 extern void (*verif_async_yield) (int point, void *worker);
 #endif
 
-#define LIVE_MS 60000		/* liveness bound of every wait-for-condition (never a verdict by itself) */
+#define LIVE_MS 60000
+#define TICK_MS 15000		/* liveness bound for a due timer tick */		/* liveness bound of every wait-for-condition (never a verdict by itself) */
 #define POLL_MS 10		/* poll interval of the timed join (async_worker_pthread.c) */
 
 /* Timing rules of this harness (the check runs on busy machines):
@@ -196,6 +197,22 @@ static void park (int g)
   cw.gate = g;
   sem_post (&cw.arrived);
   sem_wait (&cw.go);
+}
+
+static __thread uint64_t *write_jitter;	/* mt runs: random delay BEHIND the doorbell write of this (producer) thread */
+
+ssize_t write (int fd, const void *buf, size_t n)
+{
+  ssize_t r = syscall (SYS_write, fd, buf, n);
+  if (fd == gate_fd && gate_fd >= 0 && write_jitter)
+    {
+      int e = errno;
+      rnd_yield (write_jitter);
+      if (*write_jitter % 3 == 0)
+        usleep (*write_jitter % 400);
+      errno = e;
+    }
+  return r;
 }
 
 ssize_t read (int fd, void *buf, size_t n)
@@ -511,7 +528,8 @@ static void *scripted_proc (void *ctx)
       sem_wait (&s->step);
       if (__atomic_load_n (&s->quit, __ATOMIC_ACQUIRE))
         break;
-      if (async_worker_should_stop (async_worker_current ()))
+      /* the stop event is manual-reset: once signalled it STAYS signalled, every poll must see it */
+      if (async_worker_should_stop (async_worker_current ()) && async_worker_should_stop (async_worker_current ()))
         break;
       __atomic_fetch_add (&s->steps, 1, __ATOMIC_ACQ_REL);
     }
@@ -889,7 +907,7 @@ static int timer_cmd (char **tok, int n)
       /* a tick is due (the timer was active for >= 10 intervals): on a slow machine the timer thread may not have
        * been scheduled yet - wait for the tick itself, the time slept is no verdict */
       if (tm_inited && platform_timer_is_active (&tm) && tm_slept >= 10 * tm_interval_ms && tm_slept > 0)
-        wait_flag (&tm_count, LIVE_MS);
+        wait_flag (&tm_count, TICK_MS);
       c = __atomic_exchange_n (&tm_count, 0, __ATOMIC_ACQ_REL);
       /* too short a sleep to promise a tick: the class is not determined by the schedule */
       int amb = tm_inited && platform_timer_is_active (&tm) && tm_slept > 0 && tm_slept < 10 * tm_interval_ms;
@@ -947,6 +965,7 @@ static void *post_producer (void *arg)
 {
   prod_t *p = (prod_t *) arg;
   int burst = 1 + (int) (rng_next (&p->seed) % 12);
+  write_jitter = &p->seed;	/* widen the window between this thread's doorbell write and whatever follows it */
   for (int i = 0; i < p->nper; i++)
     {
       rnd_yield (&p->seed);
@@ -1280,7 +1299,7 @@ static void mt_timer (int interval, int run, uint64_t seed)
           break;
         }
       usleep (1000 * run + rng_next (&seed) % (1000 * interval));
-      if (run >= 10 * interval && !wait_flag (&tm_count, LIVE_MS))	/* waits for the first tick, however slow the machine */
+      if (run >= 10 * interval && !wait_flag (&tm_count, TICK_MS))	/* waits for the first tick, however slow the machine */
         why = "never-fired";
       t0 = now_ms ();
       if (round == 2)
